@@ -66,7 +66,7 @@ Qed.
 
 Lemma valid_prec_spec : forall w p v, In w widths -> 0 <= p <= dec_maxp w -> valid_prec w p v = in_prec p v.
 Proof.
-  intros w p v Hw Hp. unfold valid_prec, in_prec. rewrite (table_get_some w p Hw Hp).
+  intros w p v Hw Hp. unfold valid_prec, in_prec. cbv beta zeta. rewrite (table_get_some w p Hw Hp).
   destruct (Z.ltb_spec (Z.abs v) (10 ^ p)) as [H|H].
   - apply Z.abs_lt in H. apply andb_true_iff. split; apply Z.leb_le; lia.
   - apply andb_false_iff. destruct (Z.leb_spec (- (10 ^ p - 1)) v); [|left; reflexivity].
